@@ -443,6 +443,18 @@ func (c *Chain) Commit() []byte {
 	return id.Hash
 }
 
+// Sandbox runs f on a throw-away branch of the open block: everything
+// delivered inside (messages, faucet) is discarded afterwards.
+func (c *Chain) Sandbox(f func()) {
+	if !c.inBlock {
+		panic("Sandbox outside a block")
+	}
+	saved := c.block
+	c.block = saved.CacheMultiStore()
+	defer func() { c.block = saved }()
+	f()
+}
+
 // InBlock reports whether a block is open.
 func (c *Chain) InBlock() bool { return c.inBlock }
 
